@@ -65,7 +65,7 @@ def gen_case(rng, k, big, only=None):
             n = rng.randint(9, 120)
         biv = rng.choice([None, None, 0.01, 0.02, 0.05, 0.1, 0.19])
     ps = da
-    if not fd and da == 255 and rng.random() < 0.4:
+    if da == 255 and rng.random() < 0.4:
         # a PDU2 group (any group extension) travels as a broadcast as well: theorem C01_bam_closed_loop_delivers_pdu1_and_pdu2
         pf, ps = rng.randint(240, 255), rng.choice([0, 0xCA, 255, rng.randrange(256)])
     second = None
@@ -126,7 +126,7 @@ def model_text(c, data, data2=None):
             s0 = '(net22_send (net22_0 (%s) (%s) 1000) %d %d %d %d %d %s)' % (a, b, c['dp'], c['pf'], c['da'], c['prio'], c['sa'], C.zl(data))
             return ('obs (steps22 %d%%nat (net22_send (steps22 %d%%nat %s) %d %d %d %d %d %s))'
                     % (3 * ((g['n'] + 59) // 60) + 14, 3 * nseg + 14, s0, g['dp'], g['pf'], c['da'], g['prio'], c['sa'], C.zl(data2)))
-        s0 = '(net22_send (net22_0 (%s) (%s) 1000) %d %d %d %d %d %s)' % (a, b, c['dp'], c['pf'], c['da'], c['prio'], c['sa'], C.zl(data))
+        s0 = '(net22_send (net22_0 (%s) (%s) 1000) %d %d %d %d %d %s)' % (a, b, c['dp'], c['pf'], c.get('ps', c['da']), c['prio'], c['sa'], C.zl(data))
         timed = ' ++ [[-3]] ++ [map fst (tlog22 %d%%nat %s)]' % (3 * nseg + 14, s0) if c['da'] == 255 else ''
         return 'obs (steps22 %d%%nat %s)%s' % (3 * nseg + 14, s0, timed)
     a = 'subscribe (init_node %d None %s) 1 (FAddr %d)' % (c['wa'], biv, c['sa'])
